@@ -29,11 +29,12 @@ def strname(s):
 
 
 class Interner:
-    """Strings -> small naturals; 'productionTask' is always 0."""
+    """Strings -> small naturals; 'productionTask' is always 0, the names the hostile
+    execution engine writes are 1 and 2 (PFDL.NetModel.mutated_lc / mutated_uc)."""
 
     def __init__(self):
-        self.tab = {"productionTask": 0}
-        self.rev = ["productionTask"]
+        self.tab = {"productionTask": 0, "mutated": 1, "Mutated": 2}
+        self.rev = ["productionTask", "mutated", "Mutated"]
 
     def __call__(self, s):
         if s not in self.tab:
